@@ -186,6 +186,8 @@ def force(v):
     """turn lazy cell values into int / z3 term"""
     if isinstance(v, (ByteOf, OrBytes)):
         return v.term()
+    if hasattr(v, 'to_z3'):
+        return v.to_z3()
     return v
 
 
